@@ -12,5 +12,6 @@ func vfSplitBlocks(b bool)
 
 // vfStreamOp applies a block-level fault: 0 truncate to i blocks, 1 drop block i, 2 duplicate block i,
 // 3 swap blocks i and j, 4 set the Type of block i to j, 5 damage the CheckSum field of block i,
-// 6 replace the payload of block i by that of block j, 7 damage the payload of block i from item j on.
+// 6 replace the payload of block i by that of block j, 7 damage the payload of block i from item j on,
+// 8 byte damage that still decodes: item j of block i carries a different value (checksum field untouched).
 func vfStreamOp(w io.Writer, op, i, j int) bool
